@@ -91,6 +91,10 @@ def check(model: Model, tier: str):
     from ..normguard import rule_enrich_width
     obs += rule_enrich_width(model, "solvers._amen_solve_python")
     from ..normguard import rule_scale_free
+    from ..normguard import rule_homogeneous
+    obs += rule_homogeneous(model, "solvers._amen_solve_python")
+    # (not applied to the Krylov solvers: they are handed pre-scaled local systems, and BiCGSTAB_reset's early exit `norm(s) < eps` - absolute,
+    # on the pinned tree - only ends a local solve early; measured on the real code it costs sweeps, not accuracy, at every scale of b)
     obs += rule_scale_free(model, "solvers._amen_solve_python")
     for fs in ("_iterative_solvers.gmres", "_iterative_solvers.BiCGSTAB_reset", "_iterative_solvers.gmres_restart"):
         if model.has_func(fs):
